@@ -577,6 +577,11 @@ def run_check(plug: Plugin, tier: str, seed: int, level_note=""):
                   "axioms": m_ax.group(1).strip() if m_ax else None}
         if chk.returncode != 0 or coqchk["axioms"] != "<none>":
             obl["broken"].append(f"coqchk on props/{pid}: rc={chk.returncode} axioms={coqchk['axioms']} " + out[-800:])
+    if invalid > max(3, 0.02 * (evaluations + invalid)):
+        # on the unchanged tree no generated case is outside the validity domain (the cases are rewritten from the implementation's
+        # own state before validity is decided): a check must not turn green because its cases stopped counting
+        obl["broken"].append(f"{invalid} of {evaluations + invalid} cases fell outside the validity domain of the check (none does on the "
+                             "unchanged tree): what the implementation builds is no longer what the generator describes")
     xcheck = None
     if (tier == "thorough" or os.environ.get("VERIF_XCHECK") == "1") and xsample and os.environ.get("VERIF_XCHECK") != "0":
         ok, detail = extraction_cross_check(plug, xsample)
